@@ -915,9 +915,10 @@ func hdrOf(b []byte) sliceHdr { return sliceHdr{unsafe.Pointer(unsafe.SliceData(
 // one case
 
 type c12worker struct {
-	c    *Ctx
-	rng  *rand.Rand
-	page *roPage
+	c      *Ctx
+	rng    *rand.Rand
+	page   *roPage
+	replay bool // replay mode: run every sampled sub-check
 }
 
 func (w *c12worker) violate(kind string, entry int, items []optItem, in []byte, msg string, extra map[string]any) {
@@ -1076,7 +1077,7 @@ func (w *c12worker) checkOne(entry int, items []optItem, text []byte) {
 	if !hdrSame2 {
 		w.violate("rewritten", entry, items, text, "second application changed the slice header", nil)
 	}
-	if entry <= entIndent && w.page != nil && len(out) > 0 && len(out) <= 1<<16 && w.rng.IntN(256) == 0 {
+	if entry <= entIndent && w.page != nil && len(out) > 0 && len(out) <= 1<<16 && (w.replay || w.rng.IntN(256) == 0) {
 		var err3 error
 		var h0, h1 sliceHdr
 		p := w.page.run(out, func(b []byte) {
@@ -1693,7 +1694,7 @@ func replayC12(c *Ctx) {
 		in = nil
 	}
 	debug.SetPanicOnFault(true)
-	w := &c12worker{c: c, rng: c.SubRng(0), page: newROPage()}
+	w := &c12worker{c: c, rng: c.SubRng(0), page: newROPage(), replay: true}
 	if strings.HasPrefix(r.Violation.Kind, "corr-") {
 		w.corrBatch(c.NewOracle(), [][]byte{in}, &c12gen{rng: w.rng})
 		return
